@@ -201,11 +201,37 @@ def multi (k r : Nat) : String :=
     | _, _ => "?"
   s!"eph={d} replays=" ++ (if verdicts.isEmpty then "-" else ",".intercalate verdicts)
 
+open Tmv.Sts in
+/-- a real Dial/Accept of node `honest 0` against a counterparty holding key A = `honest 1` that
+presents NodeInfo ID A or B = `honest 2`; dialed under ID A, B or with an ID-less address -/
+def linkScript (dir did info : String) : String :=
+  let a1 : Session := ⟨0, 10, .honest 11⟩
+  let keyOf (x : String) : Option Key :=
+    if x = "A" then some (.honest 1) else if x = "B" then some (.honest 2) else none
+  let d : Option Dialed :=
+    if dir = "in" then (if did = "-" then some .inbound else none)
+    else if dir = "out" then
+      (if did = "none" then some (.outbound none) else (keyOf did).map fun k => .outbound (some k))
+    else none
+  match d, keyOf info with
+  | some d, some i =>
+    match a1.finish ltP ((⟨1, 11, .honest 10⟩ : Session).authOut ltP) with
+    | .ok k =>
+      match upgradeD (.honest 0) d k i with
+      | .ok => if i = k then "admitted:key-id" else "admitted:foreign-id"
+      | v => showUp v
+    | _ => "rej:auth:secretconn"
+  | _, _ => "bad-op"
+
 def step (s : St) (toks : List String) : St × String :=
   match toks with
   | ["hs"] =>
     let s' : St := { up := true, ab := handshakeDir init.ab, ba := handshakeDir init.ba }
     (s', s!"ok a={s'.ab.wNonce},{s'.ba.r.nonce} b={s'.ba.wNonce},{s'.ab.r.nonce}")
+  | "link" :: rest =>
+    match kv rest "dir", kv rest "did", kv rest "info" with
+    | some dir, some did, some info => (s, linkScript dir did info)
+    | _, _, _ => (s, "bad-op")
   | "multi" :: rest =>
     match nat? rest "k", nat? rest "r" with
     | some k, some r => if k < 1 ∨ k > 16 ∨ r > 64 then (s, "bad-op") else (s, multi k r)
